@@ -138,6 +138,90 @@ class ReplHost:
             self._uninstall()
 
 
+class RunHost(ReplHost):
+    """The real command-line host (ckl.run.main) as host of a session.
+
+    Every command is written to a script file in the simulated file system
+    and executed by one real call of ckl.run.main(): argument parsing, the
+    existence test, reading the script, interpret, and the host's report of
+    the value or the error are the repository's code.  Stub: the
+    Interpreter constructor seen by ckl.run hands back the *same*
+    interpreter on every call, so that the session oracle (which needs
+    state to persist) applies; a real `run` process ends after one script.
+    """
+    SCRIPT = "/sim/run/main.ckl"
+
+    def __init__(self, sim, name, secure, legacy, modulepath):
+        super().__init__(sim, name, secure, legacy, modulepath)
+        self.argv = ["run"] + self.argv[1:] + [self.SCRIPT, "a1", "a2"]
+        self.exits = []
+
+    def _install(self):
+        super()._install()
+        import sys
+        import ckl.run as RUN
+        import ckl.interpreter as I
+        host = self
+        Rec = I.Interpreter          # the recording subclass
+
+        def factory(secure=False, legacy=False):
+            if host.interp is None:
+                Rec(secure, legacy)  # registers itself as host.interp
+            return host.interp
+
+        def fake_print(*args, **kw):
+            if kw.get("file") is not None:
+                host.stderr.append(" ".join(str(a) for a in args))
+            else:
+                host.printed.append(" ".join(str(a) for a in args))
+
+        self.stderr = []
+        rsys = types.SimpleNamespace(argv=self.argv, exit=sys.exit,
+                                     stderr=object(),
+                                     stdout=self.sim.outs[self.name],
+                                     stdin=self.sim.ins[self.name])
+        for mod, nme, val in ((RUN, "sys", rsys), (RUN, "print", fake_print),
+                              (RUN, "Interpreter", factory)):
+            self._saved.append((mod, nme, mod.__dict__.get(nme, _MISSING)))
+            setattr(mod, nme, val)
+
+    def start(self):
+        self.thread = threading.current_thread()
+        self._install()
+        w = self.sim.w
+        w.in_proxy += 1
+        try:
+            w.put_dir("/sim/run")
+        finally:
+            w.in_proxy -= 1
+        return True
+
+    def send(self, line):
+        import ckl.run as RUN
+        if line is None:
+            return [], []
+        n_calls, n_print = len(self.calls), len(self.printed)
+        w = self.sim.w
+        w.in_proxy += 1              # the harness, not the program, writes
+        try:
+            w.put_file(self.SCRIPT, line)
+        finally:
+            w.in_proxy -= 1
+        try:
+            RUN.main()
+        except BaseException as e:   # noqa: BLE001
+            calls = self.calls[n_calls:]
+            if calls and calls[-1][0] == "exc" and calls[-1][1] is e:
+                raise                # left interpret, not caught by the host
+            self.alive = False
+            self.exc = e
+            raise ReplDied(e, calls, self.printed[n_print:])
+        return self.calls[n_calls:], self.printed[n_print:]
+
+    def stop(self):
+        self._uninstall()
+
+
 class ReplDied(Exception):
     def __init__(self, exc, calls=(), printed=()):
         super().__init__(f"REPL ended with {type(exc).__name__}: {exc}")
